@@ -45,7 +45,7 @@ SOURCES = {
     'c07': (gen_lat.build_hex, ['regular-6', 'irregular-8']),
     'dup': (None, ['cards', 'by-transform', 'near', 'hostile-opposite',
                    'hostile-many', 'empty-filler-shared',
-                   'torus-rotated-same-centre']),
+                   'torus-rotated-same-centre', 'helper-plane-collision']),
 }
 _PER = {'quick': 2, 'thorough': 60}
 FLAGS = ['--skip-deduplication', '--always-inline-filling',
@@ -83,8 +83,8 @@ def build_dup(rng, fam):
         return gen_hostile.build(rng, 'dedup-opposite')
     if fam == 'hostile-many':
         return gen_hostile.build(rng, 'dedup-many')
-    if fam == 'empty-filler-shared':
-        return gen_hostile.build(rng, 'empty-filler-shared')
+    if fam in ('empty-filler-shared', 'helper-plane-collision'):
+        return gen_hostile.build(rng, fam)
     if fam == 'torus-rotated-same-centre':
         return build_torus_pair(rng)
     deck = M.Deck(f'C13 dup {fam}')
